@@ -470,3 +470,43 @@ def with_unsupported_activation(spec, rng):
         nodes[i] = {'k': 'leakyrelu', 'src': nodes[i]['src']}
     spec['productions'] = list(spec.get('productions', [])) + ['unsupported-activation']
     return spec
+
+
+def insert_after(spec, i, node):
+    """new spec with `node` (its 'src' is set to i) inserted right after node i; every consumer of i now reads the new node"""
+    spec = copy.deepcopy(spec)
+    nodes = spec['nodes']
+
+    def remap(j, consumer=True):
+        if j == i and consumer:
+            return i + 1
+        return j + 1 if j > i else j
+    for nd in nodes:
+        if 'src' in nd:
+            nd['src'] = remap(nd['src']) if isinstance(nd['src'], int) else [remap(j) for j in nd['src']]
+    node = dict(node, src=i)
+    nodes.insert(i + 1, node)
+    spec['out'] = [remap(j) for j in spec['out']]
+    return spec
+
+
+def with_standalone_bn(spec, rng):
+    """insert BatchNorm layers that are NOT fused into a preceding convolution / linear layer: on the raw network input,
+    after a residual add, after a flatten (BatchNorm1d over channels x positions).  Opt-in (C08): PIT converts them to
+    PITBatchNorm layers that follow the mask of their producer."""
+    sh = shapes(spec)
+    cands = []
+    for i, nd in enumerate(spec['nodes']):
+        if nd['k'] == 'in' or nd['k'] == 'add':
+            cands.append(i)
+        elif nd['k'] == 'flatten' and i not in spec['out']:
+            cands.append(i)
+    rng.shuffle(cands)
+    picked = sorted(cands[:rng.randint(1, 2)], reverse=True) if cands else []
+    for i in picked:
+        shp = sh[i]
+        kind = 'bn2d' if len(shp) == 3 else 'bn1d'
+        spec = insert_after(spec, i, {'k': kind, 'c': shp[0]})
+    if picked:
+        spec['productions'] = list(spec.get('productions', [])) + ['standalone-bn']
+    return spec
